@@ -18,6 +18,9 @@ mod c10;
 mod c16;
 mod c17;
 mod c05;
+mod c06;
+mod c07;
+mod c11;
 
 use runner::Tier;
 
@@ -28,7 +31,10 @@ fn dispatch_replay(prop: &str, w: &serde_json::Value) -> Vec<(String, String)> {
         "C03" => c03::replay(w),
         "C04" => c04::replay(w),
         "C05" => c05::replay(w),
+        "C06" => c06::replay(w),
+        "C07" => c07::replay(w),
         "C10" => c10::replay(w),
+        "C11" => c11::replay(w),
         "C16" => c16::replay(w),
         "C17" => c17::replay(w),
         _ => vec![],
@@ -72,7 +78,10 @@ fn main() {
         "C03" => c03::run(tier),
         "C04" => c04::run(tier),
         "C05" => c05::run(tier),
+        "C06" => c06::run(tier),
+        "C07" => c07::run(tier),
         "C10" => c10::run(tier),
+        "C11" => c11::run(tier),
         "C16" => c16::run(tier),
         "C17" => c17::run(tier),
         other => {
